@@ -36,7 +36,7 @@ struct kdfcall {
     int table;                /* which injected table's KDF function was called (0 = A, 1 = B) */
 };
 struct blk { void *p; size_t n; int wiped; };
-#define MAXLIVE 64
+#define MAXLIVE 512
 struct env {
     /* inputs chosen by the case */
     uint8_t tape[2][32];      /* random source of table A / B */
